@@ -120,6 +120,7 @@ void h_SET_OF_decode_ber_chunked(void) {
 			__CPROVER_assert(L_eq((struct L *)st1, (struct L *)st2), "C05: same value");
 		}
 	}
+	SET_OF_free(&L_td, st1, ASFM_FREE_EVERYTHING); SET_OF_free(&L_td, st2, ASFM_FREE_EVERYTHING);
 }
 
 VF_NATIVE_MAIN
